@@ -127,6 +127,7 @@ func runC01(w *vx.W) {
 	c01Chains(c)
 	c01Substitutions(c)
 	c01LyingSizes(c)
+	c01LocalSweep(c)
 	c01Definitions(c)
 }
 
@@ -961,6 +962,25 @@ func c01LyingSizes(c *c01ctx) {
 					w.DistinctS(fmt.Sprintf("lie/%d/%d/%d", bi, vi, D*1000/(dataLen+1)/100))
 				}
 			}
+		}
+	}
+}
+
+// (i) every whole-second zone offset between -15 h and +15 h of a local timestamp from its UTC reference (108 001
+// values, both byte orders): value-dependent table lookups in the time code must not fail for any of them.
+func c01LocalSweep(c *c01ctx) {
+	w := c.w
+	var idx int64
+	for start := sweepLo; start <= sweepHi; start += sweepPer {
+		for _, big := range []bool{false, true} {
+			idx++
+			if !w.Mine(idx) {
+				continue
+			}
+			stream, _ := localSweepFile(start, big)
+			c.call("Decode", stream, 0)
+			c.call("DecodeChained", stream, 0)
+			w.Fam("i:zone-offset-sweep", 1)
 		}
 	}
 }
